@@ -42,6 +42,11 @@ Fixpoint qlookup (v : var) (ds : list (var * Qc)) : Qc :=
    number per variable (DynamicUpdater passes a MeanField of floats) *)
 Inductive delta := DScalar (d : Qc) | DPerVar (ds : list (var * Qc)).
 
+(* faithful-to-the-code switches for two PROPOSED repairs (proposed_fixes/C18-pervar-delta.diff and
+   C18-subset-scalar-variables.diff); flip to true when the patch is applied *)
+Definition code_pervar_delta_rescaled : bool := false.
+Definition code_subset_scalar_paths : bool := false.
+
 Section EP.
   Variable G : Type.
   Variable gadd : G -> G -> G.
@@ -113,10 +118,18 @@ Section EP.
   Definition damped_exps_ok (d : Qc) (last : option G) : bool :=
     qclt (Q2Qc 0) d && match last with Some _ => qclt (Q2Qc 0) (Q2Qc 1 - d) | None => true end.
 
-  Definition cand (dl : delta) (cavd last : mf) (v : var) (nw : G) : G * bool :=
+  (* repaired per-variable damping (MeanField.rescale): an exponent of exactly 0 / 1 means "no message" /
+     "the message itself"; in natural parameters that is still d * new + (1 - d) * last - d * cavity, only the
+     exponents 0 and 1 stop being improper *)
+  Definition rescaled_exps_ok (d : Qc) (last : option G) : bool :=
+    negb (qclt d (Q2Qc 0)) && match last with Some _ => negb (qclt (Q2Qc 1 - d) (Q2Qc 0)) | None => true end.
+  Definition is_pervar (dl : delta) : bool := match dl with DPerVar _ => true | DScalar _ => false end.
+  Definition cand_v (resc : bool) (dl : delta) (cavd last : mf) (v : var) (nw : G) : G * bool :=
     if is_full dl then (full_cand nw (get v cavd), true)
     else let d := delta_at dl v in
-         (damped_cand d nw (get v last) (get v cavd), damped_exps_ok d (get v last)).
+         (damped_cand d nw (get v last) (get v cavd),
+          if resc && is_pervar dl then rescaled_exps_ok d (get v last) else damped_exps_ok d (get v last)).
+  Definition cand := cand_v code_pervar_delta_rescaled.
   Definition cand_valid (c : G * bool) : bool := snd c && gvalid (fst c).
 
   (* update_invalid: an invalid projection keeps the previous message of that variable *)
@@ -420,19 +433,23 @@ Definition restrict (sel : list var) (st : nstate) : nstate :=
   map (filter (fun vm : var * N2 => has_var (fst vm) sel)) st.
 Definition scale_of (frac : Q) (scalars : list var) (v : var) : Qc :=
   if has_var v scalars then Q2Qc frac else Q2Qc 1.
+(* a factor without any plated variable is not rescaled (only reachable with the repaired subset()) *)
+Definition scale_in (frac : Q) (scalars : list var) (m : nmf) (v : var) : Qc :=
+  if existsb (fun vm : var * N2 => negb (has_var (fst vm) scalars)) m then scale_of frac scalars v else Q2Qc 1.
 Definition sub_rest (s : Qc) (o : N2) : N2 := n_scale (Q2Qc 1 - s)%Qc o.
 (* cavity_dist as EPMeanFieldSubset.factor_approximation reports it *)
 Definition sub_cavity (frac : Q) (scalars : list var) (i : nat) (sst : nstate) : nmf :=
   let cavd := n_cavity i sst in
   only_messages N2 (map (fun vm =>
-    let s := scale_of frac scalars (fst vm) in
+    let s := scale_in frac scalars (own N2 i sst) (fst vm) in
     (fst vm, match get N2 (fst vm) cavd with
              | Some c => Some (if qclt s (Q2Qc 1) then n_add c (sub_rest s (snd vm)) else c)
-             | None => None
+             | None => (* today: KeyError; repaired: the held-back part own^(1-s) is the whole cavity *)
+                       if code_subset_scalar_paths && qclt s (Q2Qc 1) then Some (sub_rest s (snd vm)) else None
              end)) (own N2 i sst)).
 Definition sub_msg (frac : Q) (scalars : list var) (dl : delta) (cavd last : nmf) (v : var) (nw : N2) : N2 * bool :=
   let c := cand N2 n_add n_opp n_scale dl cavd last v nw in
-  let s := scale_of frac scalars v in
+  let s := scale_in frac scalars last v in
   let chk := match get N2 v last with
              | Some o => if is_full dl && qclt s (Q2Qc 1) then n_add (fst c) (n_opp (sub_rest s o)) else fst c
              | None => fst c
